@@ -733,6 +733,11 @@ func (env *CEnv) call(n *Node) cval {
 		// list_at(ptr, "field"): the value of a field of the ClientStateResponseWriter behind ptr
 		b := env.term(n.Kids[0])
 		return cval{V: App("f!authboss.ClientStateResponseWriter."+n.Kids[1].S, SInt, b)}
+	case "offsite":
+		// offsite(s): a browser resolves s to another origin (DESIGN appendix C):
+		// optional leading C0/space, tab/newline/CR ignored, then a scheme
+		// "alpha (alnum|+|-|.)* :" or two slashes/backslashes.
+		return cval{V: Builtin("str.in_re", SBool, env.term(n.Kids[0]), &Term{Op: offsiteRegex, S: "RegLan"})}
 	case "implements":
 		// implements(x, "pkg.Iface"): the dynamic-type predicate the executor uses for x.(pkg.Iface)
 		x := env.term(n.Kids[0])
@@ -965,3 +970,10 @@ func handlerLayers(env *CEnv, v Value, depth int) string {
 	}
 	return funcValueName(v)
 }
+
+const offsiteRegex = `(re.++ (re.* (re.range "\u{0}" "\u{20}")) ` +
+	`(re.union ` +
+	`(re.++ (re.union (re.range "a" "z") (re.range "A" "Z")) ` +
+	`(re.* (re.union (re.range "a" "z") (re.range "A" "Z") (re.range "0" "9") (str.to_re "+") (str.to_re "-") (str.to_re ".") (str.to_re "\u{9}") (str.to_re "\u{a}") (str.to_re "\u{d}"))) ` +
+	`(str.to_re ":") re.all) ` +
+	`(re.++ (re.union (str.to_re "/") (str.to_re "\u{5c}")) (re.* (re.union (str.to_re "\u{9}") (str.to_re "\u{a}") (str.to_re "\u{d}"))) (re.union (str.to_re "/") (str.to_re "\u{5c}")) re.all)))`
